@@ -713,3 +713,5 @@ def _f(res):
 #                 share) -> post-repair-results-list-absent-share, post-repair-healthy-with-fewer-than-N-shares-on-disk
 # History: the unchanged tree used to violate C45 (verifier never tied the block hash tree to the share-hash leaf of
 # the share number being verified; key .../own-share-hash-leaf-never-consulted); fixed in /repo by 7f290d0.
+#   seeded/C45-5 (post-repair is_recoverable uses > k) -> post-repair-recoverable-disagrees-with-its-sharemap; needs the
+#                 directed "boundary" cases (corruption only, k-1/k/k+1 good share numbers, verifying repair).
